@@ -362,4 +362,45 @@ def indications_one_at_a_time(mtu: int, l1: int, o1: int, o2: int, o3: int, o4: 
         return all(t.done() and t.exception() is None for t in tasks)
 
 
+@harness(pre=['0 <= o2 <= 3 and 0 <= o3 <= 3 and 0 <= o4 <= 3 and 0 <= x <= 255'], family='indicate', twin=True, timeout=(90, 200), grid={'o1': [0, 1, 2, 3]},
+         kernels=('bumble.gatt_server.Server.on_att_handle_value_confirmation', 'bumble.gatt_server.Server._indicate_single_bearer', 'bumble.gatt_server.Server.on_gatt_pdu'),
+         bounds='schedule of 4 steps from {start an indication, deliver a confirmation (pending or not), deliver TWO confirmations back to back, let the loop run}: the server never sends anything in reply to a confirmation (only indications leave), every indication that was confirmed completes, and a fresh indication afterwards still works')
+def confirmations_never_answered(o1: int, o2: int, o3: int, o4: int, x: int) -> bool:
+    with detloop.running() as loop:
+        ch = gatt.Characteristic(U(0x2A00), READ | gatt.Characteristic.Properties.INDICATE, P.READABLE, _B(x))
+        dev, server = make_server([ch])
+        b = StubBearer(23)
+        server.subscribers[b] = {ch.handle: b'\x02\x00'}
+        tasks = []
+        for o in (o1, o2, o3, o4):
+            if o == 0:
+                tasks.append(loop.create_task(server.indicate_subscriber(b, ch)))
+                loop.run_ready()
+            elif o == 1:
+                server.on_gatt_pdu(b, att.ATT_PDU.from_bytes(b'\x1e'))
+                loop.run_ready()
+            elif o == 2:
+                server.on_gatt_pdu(b, att.ATT_PDU.from_bytes(b'\x1e'))
+                server.on_gatt_pdu(b, att.ATT_PDU.from_bytes(b'\x1e'))
+                loop.run_ready()
+            else:
+                loop.run_ready()
+            if any(p[0] != 0x1D for p in pdus(dev)):
+                return False
+        # confirm whatever is still waiting, one at a time
+        for _ in range(6):
+            sent = sum(1 for p in pdus(dev) if p[0] == 0x1D)
+            done = sum(1 for t in tasks if t.done())
+            if sent > done:
+                server.on_gatt_pdu(b, att.ATT_PDU.from_bytes(b'\x1e'))
+            loop.run_ready()
+        if not all(t.done() and t.exception() is None for t in tasks):
+            return False
+        t = loop.create_task(server.indicate_subscriber(b, ch))
+        loop.run_ready()
+        server.on_gatt_pdu(b, att.ATT_PDU.from_bytes(b'\x1e'))
+        loop.run_ready()
+        return t.done() and t.exception() is None and all(p[0] == 0x1D for p in pdus(dev))
+
+
 _flags.int_format_placeholder = True     # log f-strings with symbolic ints are not the subject here (see vf/flags.py)
